@@ -28,12 +28,14 @@ ID = 'C06'
 LEVEL = 'exploration'
 RULE = ('Two arms, alternating by run index: (a) documents of every non-acknowledgement map with 0..5 data faults whose values '
         '(valid and offending) are drawn from an alphabet containing ~ * : ^ while the source uses other delimiters, many '
-        'errors per segment, 1..2 x 1..2 x 1..3 envelopes; (b) structurally damaged documents from the C07 catalogue. Every '
+        'errors per segment (a flood variant over-fills every position of the widest segment: 100+ element errors), mixed-version '
+        'files, the shared structural damage of the C05 workload, 1..2 x 1..2 x 1..3 envelopes; (b) structurally damaged documents from '
+        'the C07 catalogue. Every '
         'run validates with the ack sink on; when an acknowledgement is written it is checked. distinct_nontrivial = distinct '
         '(arm, map or base kind, ack kind, number of groups/sets in the ack, sorted error-code multiset or fault kinds) keys.')
 ASSUMPTIONS = [
     'the ack must be complete (last write is the IEA) whenever anything was written to the ack sink',
-    'a value containing the ack\'s component separator does not "fit" the ack element definition; acceptance on feedback is then not demanded',
+    'a value containing the ack\'s component separator does not "fit" the ack element definition; acceptance on feedback is then not demanded - but only positions that hold copies of input data (ECHOED) can excuse a rejection: a value the generator chose itself must fit',
     'feedback acceptance is demanded only when every ack body segment satisfies the 997/999 map definition under refmodel.element_rules',
 ]
 COMPONENTS = {
